@@ -15,6 +15,8 @@ func init() {
 		Run:   runC03,
 		Trusted: []string{"sort.Sort orders by Less; Routes.Less orders paths descending", "gobwas/glob matching"},
 		Mutants: []mutant{
+			{Name: "length pre-filter before the matcher", File: "route/table.go", Old: "\t\tif match(path, r) {", New: "\t\tif len(r.Path) > len(path) {\n\t\t\tcontinue\n\t\t}\n\t\tif match(path, r) {", Expect: "C03.L1"},
+
 			{Name: "no-glob matcher compares the raw request host", File: "route/table.go", Old: "\thost := normalizeHost(req.Host, req.TLS != nil)\n\n\tfor pattern := range t {", New: "\thost := normalizeHostNoLower(req.Host, req.TLS != nil)\n\n\tfor pattern := range t {", Expect: "C03.N1"},
 			{Name: "glob matcher does not strip the default port of the request", File: "route/table.go", Old: "\thost := normalizeHost(req.Host, req.TLS != nil)\n\tfor pattern := range t {", New: "\thost := strings.ToLower(req.Host)\n\tfor pattern := range t {", Expect: "C03.N1"},
 			{Name: "lookup with the raw host", File: "route/table.go", Old: "\thost = strings.ToLower(host) // routes are always added lowercase\n", New: "", Expect: "C03.K1"},
@@ -228,6 +230,8 @@ func derivesThroughRepo(v ssa.Value, pred func(ssa.Value) bool) bool {
 		case *ssa.UnOp:
 			return walk(y.X, d+1)
 		case *ssa.FieldAddr:
+			return walk(y.X, d+1)
+		case *ssa.IndexAddr:
 			return walk(y.X, d+1)
 		case *ssa.Extract:
 			return walk(y.Tuple, d+1)
@@ -492,6 +496,30 @@ func runC03O2O3L1(c *Ctx) {
 				}
 			}
 		}
+	}
+	// every route of the host is offered to the matcher: no way from the loop body back to the head that skips the call
+	for _, l := range loopsOf(inner) {
+		var matchCall ssa.Instruction
+		for b := range l.Body {
+			for _, in := range b.Instrs {
+				if call, ok := in.(*ssa.Call); ok && call.Call.StaticCallee() == nil && !call.Call.IsInvoke() {
+					if _, isParam := call.Call.Value.(*ssa.Parameter); isParam {
+						matchCall = in
+					}
+				}
+			}
+		}
+		if matchCall == nil {
+			continue
+		}
+		skip := false
+		for _, entry := range l.Head.Succs {
+			if l.Body[entry] && entry != l.Head && pathAvoidingFromBlockTo(entry, l.Head, func(i ssa.Instruction) bool { return i == matchCall }) {
+				skip = true
+			}
+		}
+		c.check("C03.L1", "(route.Table).lookup|every route of the host is offered to the matcher", matchCall.Pos(), !skip,
+			"a route can be skipped without consulting the configured matcher (a pre-filter before match()): what looks redundant for the prefix matchers is wrong for glob, whose patterns can be longer than the paths they match — a request then misses its most specific route or gets no route although a candidate exists")
 	}
 	c.check("C03.L1", "(route.Table).lookup|first route accepted by the matcher decides", inner.Pos(), okFirst,
 		"routes are sorted most specific first; lookup must return at the first route the matcher accepts (a later, shorter path must not replace it)")
